@@ -2,6 +2,7 @@ package sim
 
 import (
 	"bytes"
+	"flag"
 	"crypto/sha256"
 	"encoding/binary"
 	"encoding/json"
@@ -270,68 +271,85 @@ func (t *simTB) Failed() bool      { return t.failed }
 // is reached; the first unknown discrepancy is shrunk and recorded.
 func RunShard(p Property, env *Env) {
 	start := time.Now()
-	target := "" // signature being minimised
-	var last *Replay
-	seenKnown := map[string]bool{}
-	prop := func(t *rapid.T) {
-		if target == "" && (time.Now().After(env.Deadline) || env.Stats.Cases >= env.Budget) {
-			return
-		}
-		c, outs := p.Gen(t, env)
-		if c == nil {
-			return
-		}
-		if target == "" {
-			env.Stats.Cases++
-			if p.Nontrivial(c, outs) {
-				env.Stats.NoteNontrivial(caseHash(c))
+	reported := map[string]bool{} // signatures already minimised and recorded by this shard
+	for round := 0; round < 6; round++ {
+		target := "" // signature being minimised
+		var last *Replay
+		prop := func(t *rapid.T) {
+			if target == "" && (time.Now().After(env.Deadline) || env.Stats.Cases >= env.Budget) {
+				return
 			}
-			if len(env.Stats.Samples) < 2 && len(c.Runs) > 0 {
-				env.Stats.Samples = append(env.Stats.Samples, sampleOf(c, outs))
-			}
-		}
-		ds := p.Eval(c, outs)
-		if env.Census {
-			for _, d := range ds {
-				env.Stats.Counters["sig:"+d.Sig]++
-				if env.Stats.Counters["sig:"+d.Sig] == 1 && os.Getenv("VERIF_DEBUG_DIR") != "" {
-					r := &Replay{Property: p.ID(), Signature: d.Sig, Detail: d.Detail, Seed: env.Seed, Shard: env.Shard, Tier: env.Tier, Case: *c}
-					b, _ := json.MarshalIndent(r, "", " ")
-					_ = os.MkdirAll(os.Getenv("VERIF_DEBUG_DIR"), 0o755)
-					_ = os.WriteFile(filepath.Join(os.Getenv("VERIF_DEBUG_DIR"), "census-"+shortHash(d.Sig)+".json"), b, 0o644)
-				}
-			}
-			return
-		}
-		for _, d := range ds {
-			if k := matchKnown(env.Known, p.ID(), d.Sig); k != nil {
-				env.Stats.KnownHit[k.Signature]++
-				if !seenKnown[k.Signature] {
-					seenKnown[k.Signature] = true
-				}
-				continue
+			c, outs := p.Gen(t, env)
+			if c == nil {
+				return
 			}
 			if target == "" {
-				target = d.Sig
-			}
-			if d.Sig == target {
-				r := &Replay{Property: p.ID(), Signature: d.Sig, Detail: d.Detail, Seed: env.Seed, Shard: env.Shard, Tier: env.Tier, Case: *c}
-				for _, o := range outs {
-					r.Hashes = append(r.Hashes, o.Hash(true))
+				env.Stats.Cases++
+				if p.Nontrivial(c, outs) {
+					env.Stats.NoteNontrivial(caseHash(c))
 				}
-				last = r
-				t.Fatalf("%s", target)
+				if len(env.Stats.Samples) < 2 && len(c.Runs) > 0 {
+					env.Stats.Samples = append(env.Stats.Samples, sampleOf(c, outs))
+				}
+			}
+			ds := p.Eval(c, outs)
+			if env.Census {
+				for _, d := range ds {
+					env.Stats.Counters["sig:"+d.Sig]++
+					if env.Stats.Counters["sig:"+d.Sig] == 1 && os.Getenv("VERIF_DEBUG_DIR") != "" {
+						r := &Replay{Property: p.ID(), Signature: d.Sig, Detail: d.Detail, Seed: env.Seed, Shard: env.Shard, Tier: env.Tier, Case: *c}
+						b, _ := json.MarshalIndent(r, "", " ")
+						_ = os.MkdirAll(os.Getenv("VERIF_DEBUG_DIR"), 0o755)
+						_ = os.WriteFile(filepath.Join(os.Getenv("VERIF_DEBUG_DIR"), "census-"+shortHash(d.Sig)+".json"), b, 0o644)
+					}
+				}
+				return
+			}
+			for _, d := range ds {
+				if k := matchKnown(env.Known, p.ID(), d.Sig); k != nil {
+					if target == "" {
+						env.Stats.KnownHit[k.Signature]++
+					}
+					continue
+				}
+				if reported[d.Sig] {
+					continue
+				}
+				if target == "" {
+					target = d.Sig
+				}
+				if d.Sig == target {
+					r := &Replay{Property: p.ID(), Signature: d.Sig, Detail: d.Detail, Seed: env.Seed, Shard: env.Shard, Tier: env.Tier, Case: *c}
+					for _, o := range outs {
+						r.Hashes = append(r.Hashes, o.Hash(true))
+					}
+					last = r
+					t.Fatalf("%s", target)
+				}
 			}
 		}
-	}
-	tb := &simTB{}
-	rapid.Check(tb, prop)
-	if last != nil {
-		env.Stats.Violations = append(env.Stats.Violations, *last)
-	} else if tb.failed {
-		// rapid itself complained (e.g. could not generate): harness problem
-		fmt.Fprintln(os.Stderr, "simcheck: rapid reported a failure without a violation:\n"+tb.logs.String())
-		env.Stats.Counters["rapid_harness_failure"]++
+		tb := &simTB{}
+		if round > 0 {
+			_ = flag.Set("rapid.seed", fmt.Sprint(env.Seed*64+uint64(env.Shard)+1+uint64(round)*1000003))
+			remaining := env.Budget - env.Stats.Cases
+			if remaining < 1 {
+				break
+			}
+			_ = flag.Set("rapid.checks", fmt.Sprint(remaining))
+		}
+		rapid.Check(tb, prop)
+		if last != nil {
+			env.Stats.Violations = append(env.Stats.Violations, *last)
+			reported[last.Signature] = true
+		} else if tb.failed {
+			// rapid itself complained (e.g. could not generate): harness problem
+			fmt.Fprintln(os.Stderr, "simcheck: rapid reported a failure without a violation:\n"+tb.logs.String())
+			env.Stats.Counters["rapid_harness_failure"]++
+		}
+		// another round only after a violation, to look for different ones in the time left
+		if last == nil || time.Now().After(env.Deadline) || env.Stats.Cases >= env.Budget {
+			break
+		}
 	}
 	env.Stats.WallS = time.Since(start).Seconds()
 }
